@@ -184,6 +184,30 @@ def run(ctx, tier, seed, scale=1.0):
                 cases.append(["E", lit])
                 meta.append(("int", lit, t, v))
 
+    # ---- malformed numeric literals: digits that do not belong to the base, repeated / ill-formed suffixes, an exponent marker without digits.
+    # None of them may evaluate to a value (any value would mean part of the spelling was ignored).
+    bad_nums = ["08", "09", "089", "0128", "019", "07778", "1uu", "1UU", "1uU", "7lll", "7LLL", "1lul", "1ulu", "1llul", "3ullu", "0x1Fuu", "0x10lll", "0b101uu",
+                "0b11lul", "017uu", "1.5ff", "1.5FF", "1.5lf", "1.5fl", "1.5ll", "2.0e3ff", "1e", "1E", "1e+", "1e-", "1.5e", "1.5E+", "1.5e-", "0.5e", "12e",
+                "7.25e+", "1e5ff", "1.0lL"]
+    for _ in range(int((60 if quick else 3000) * scale)):
+        k = rng.randrange(5)
+        if k == 0:      # octal with a digit 8/9 somewhere
+            ds = [rng.choice("01234567") for _ in range(rng.randrange(1, 8))]
+            ds.insert(rng.randrange(0, len(ds) + 1), rng.choice("89"))
+            bad_nums.append("0" + "".join(ds) + rng.choice(["", "", "u", "l"]))
+        elif k == 1:    # repeated u / three l / l-u-l
+            core = rng.choice([str(rng.randrange(0, 10**6)), "0x%x" % rng.randrange(1 << 20), "0b" + bin(rng.randrange(1 << 10))[2:], "0%o" % rng.randrange(1 << 12)])
+            bad_nums.append(core + rng.choice(["uu", "UU", "lll", "LLL", "lul", "LUL", "ulu", "ullu", "lllu", "uull"]))
+        elif k == 2:    # float with more than one suffix character
+            bad_nums.append("%d.%d" % (rng.randrange(100), rng.randrange(1000)) + rng.choice(["", "e3", "E-2"]) + rng.choice(["ff", "fl", "lf", "ll", "FF", "fF", "lL"]))
+        elif k == 3:    # dangling exponent marker
+            bad_nums.append(rng.choice(["%d" % rng.randrange(1000), "%d.%d" % (rng.randrange(100), rng.randrange(1000))]) + rng.choice("eE") + rng.choice(["", "+", "-"]))
+        else:           # digit not in the base after a valid prefix: the literal ends early and what follows must not be dropped
+            bad_nums.append(rng.choice(["0b1012", "0b102", "0x1Fg", "0x1FG", "0b11a"]))
+    for lit in sorted(set(bad_nums)):
+        cases.append(["E", lit])
+        meta.append(("badnum", lit, None, None))
+
     # ---- floats
     nflt = int((6000 if quick else 200000) * scale)
     for _ in range(nflt):
@@ -309,6 +333,13 @@ def run(ctx, tier, seed, scale=1.0):
                 which = "type" if f[1].split(":")[-1] == str(v) else "value"
                 ctx.violation("int-literal:wrong-%s" % which, {"literal": lit, "expected": want, "got": f[1]})
             ctx.count("int-type:" + t)
+        elif kind == "badnum":
+            ctx.nontriv("badnum:" + a)
+            if f[0] == "ok":
+                ctx.violation("malformed-number-accepted:" + ("exponent" if a.rstrip("+-")[-1] in "eE" else ("suffix" if a[-1] in "uUlLfF" and a[-2] in "uUlLfF" else "digits")),
+                              {"literal": a, "got": f[1][:100]})
+            else:
+                ctx.count("malformed-number-rejected")
         elif kind == "float":
             lit, t = a, b
             ctx.nontriv("float:" + lit)
@@ -371,6 +402,7 @@ def run(ctx, tier, seed, scale=1.0):
     ctx.rule = ("integer literals: values 2^k+-{0,1,2} for k in 7..64 and random fill x base{2,8,10,16} x 20 suffix spellings, expected type "
                 "from the [lex.icon] table, spellings no C++ type can hold skipped; float literals: random decimal/exponent spellings x "
                 "{none,f,l} compared in ulps with glibc strtof/strtod/strtold; string/char literals: all sequences of length 1-2 (+random longer) "
+                "malformed numeric spellings (octal with 8/9, repeated or ill-formed u/l/f suffixes, exponent marker without digits) must be rejected; strings "
                 "over 12 plain atoms and 50 escape forms, expected bytes from an independent C++ escape decoder (None = must be rejected); "
                 "identifiers colliding with the 26 keyword/reserved-word hashes (found by FNV-1a inversion, confirmed by the engine's hash) used as "
                 "variable/function/parameter/global/attribute names. Every generated literal is distinct and counts as non-trivial.")
